@@ -92,6 +92,13 @@ class Bucket:
         endtime: Optional[datetime] = None,
     ) -> List[Event]:
         """Returns events sorted in descending order by timestamp"""
+        # Aware window edges are normalized to UTC first: the rounding below is datetime
+        # arithmetic, which forgets `fold` (an edge in the second reading of a repeated
+        # wall-clock hour would move to the first reading)
+        if starttime is not None and starttime.utcoffset() is not None:
+            starttime = starttime.astimezone(timezone.utc)
+        if endtime is not None and endtime.utcoffset() is not None:
+            endtime = endtime.astimezone(timezone.utc)
         # Resolution is rounded down since not all datastores like microsecond precision
         if starttime:
             starttime = starttime.replace(
